@@ -328,6 +328,32 @@ def rule_RC(ctx, fm):
     ctx.check('C09.RC.factors', 'get_receiver: factor / component pairing',
               ok, 'components are not weighted by their own direction cosine',
               ctx.where(fm, loop[0]))
+    # a component may be skipped only if its direction cosine is negligible:
+    # dropping |cos| up to T is a relative error T against the transpose of
+    # the point source, so T must stay below the accuracy of the fields (the
+    # default solver tolerance)
+    sm_ = ctx.repo.mod('emg3d/solver.py')
+    tols = [n.value.value for n in ast.walk(sm_.cls('MGParameters'))
+            if isinstance(n, ast.AnnAssign) and
+            ast.unparse(n.target) == 'tol' and
+            isinstance(n.value, ast.Constant)]
+    ctx.anchor(len(tols) == 1, 'default solver tolerance')
+    skips = [n for n in ast.walk(loop[0]) if isinstance(n, ast.If)]
+    for sk in skips:
+        m_ = find('np.any(abs(_f_[_i_]) > _T_)', sk.test) or \
+            find('np.any(np.abs(_f_[_i_]) > _T_)', sk.test)
+        T = m_[0][1]['_T_'] if m_ else None
+        try:
+            Tv = float(T if isinstance(T, str) else ast.unparse(T))
+        except (TypeError, ValueError):
+            Tv = None
+        okT = Tv is not None and 0 <= Tv <= tols[0]
+        ctx.check('C09.RC.factors', 'get_receiver: component skip threshold',
+                  bool(okT), f'components are skipped under '
+                  f'`{ast.unparse(sk.test)}`: a direction cosine that is not '
+                  f'negligible (> default tol {tols[0]}) is dropped from the '
+                  'sampling but kept by the point source', ctx.where(fm, sk),
+                  sample={'test': ast.unparse(sk.test)})
     ctx.check('C09.RC.factors', 'get_receiver: no extrapolation, no log',
               has(f"_o_ = {{'method': {gp_[2]}, 'extrapolate': False, "
                   "'log': False}", gr), 'sampling options changed',
